@@ -77,6 +77,17 @@ def run_mc(group, gname, tier, wd, seed):
     res = tlc.run("MC.tla", cfg, os.path.join(wd, "mc_" + gname), workers=12, timeout=t["mc_timeout"], keep_stdout=True, cache=True)
     return res, consts
 
+def run_live(group, gname, tier, wd):
+    """Liveness half of C02 in the model: under weak fairness every behaviour comes to rest (no livelock of the runner)."""
+    t = configs.TIERS[tier]
+    consts = group[t["mc"]]
+    cfg = os.path.join(wd, "Live_%s.cfg" % gname)
+    tlc.write_cfg(cfg, "FairSpec", consts, subst=group["subst"], properties=["Terminates"])
+    res = tlc.run("MC.tla", cfg, os.path.join(wd, "live_" + gname), workers=12, timeout=t["mc_timeout"], keep_stdout=True, cache=True)
+    checked = "Checking temporal properties for the complete state space" in res.stdout
+    violated = "Temporal properties were violated" in res.stdout
+    return res, checked, violated
+
 def run_gen(group, gname, tier, wd, seed):
     """Behaviours by TLC simulation: [(hist)]."""
     t = configs.TIERS[tier]
@@ -288,6 +299,12 @@ def check_property(prop, tier, seed):
             if mc.violated:
                 model_alarm = (gname, mc.violated)
                 g["mc"]["violated"] = mc.violated
+            if prop == "C02" and gname == groups[0]:
+                lv, checked, lviol = run_live(group, gname, tier, wd)
+                g["liveness"] = dict(property="Terminates == <>[](stack empty /\\ ~ENABLED Next) under WF_vars(Next)", states=lv.distinct,
+                                     temporal_check_completed=checked, violated=lviol, cached=lv.cached, wall_s=round(lv.wall, 1))
+                if lviol or (lv.error and not lv.timed_out):
+                    model_alarm = (gname, "Terminates")
         # (b) spec -> impl
         if "gen" in group:
             hists, gres = run_gen(group, gname, tier, wd, seed)
